@@ -191,7 +191,7 @@ package h2
 //@   at entry 0 before set rlData = data
 //@   at entry 0 before set rlEnd = streamEnded
 //@   at call 0 of enqueue before assert[frame-within-max-frame-size] len(nextPayload) <= maxPayloadLength
-//@   at call 0 of enqueue before assert[end-stream-only-on-last] as(f, *queuedDataFrame).endStream == (streamEnded && len(data) == 0)
+//@   at call 0 of enqueue before assert[end-stream-only-on-last] as(arg0, *queuedDataFrame).endStream == (streamEnded && len(data) == 0)
 
 // ---------------------------------------------------------------------------------------------
 // C08: frame dispatch. Every call into a stream processor is recorded in ghost variables (pc*): which processor,
